@@ -140,6 +140,15 @@ Lemma nf_step_frames f fi psi x :
   s_fi R (nf_step {| s_f := f; s_fi := fi; s_psi := psi |} x) = snd (fstep (f, fi) x).
 Proof. split; reflexivity. Qed.
 
+(* the frames of a run do not depend on the state *)
+Lemma nf_frames_fold : forall p f fi psi,
+  s_f R (fold_left nf_step p {| s_f := f; s_fi := fi; s_psi := psi |}) = fst (fold_left fstep p (f, fi)) /\
+  s_fi R (fold_left nf_step p {| s_f := f; s_fi := fi; s_psi := psi |}) = snd (fold_left fstep p (f, fi)).
+Proof.
+  induction p as [|x r IH]; intros f fi psi; [split; reflexivity|]. cbn [fold_left].
+  rewrite (surjective_pairing (fstep (f, fi) x)). apply IH.
+Qed.
+
 (* ---- whole programs: invariant with the ORIENTED ideal items ---- *)
 Lemma run_invariant_from n : forall p f fi psi ideal g,
   Forall (wf_instr n) p -> frames_ok f fi -> Inv n g f psi ideal ->
